@@ -124,13 +124,13 @@ def job_end_to_end(res, model, n, nb, it, pset):
     res.obs.append(Ob('%s RF n=%d nb=%d it=%d params %s: static apply == dynamic apply (twice) bit for bit, no NaN (run from IR, IEEE)' % (model, n, nb, it, pset), 'holds' if ok and nanfree else 'violated',
                       key='zero-amplitude-apply-%s' % model, cex=None if ok and nanfree else {'replay': 'e2e', 'model': model, 'n': n, 'nb': nb, 'it': it, 'pset': list(pset)}))
 
-def job_queue(res, n, it, L):
+def job_queue(res, n, it, L, model='sin'):
     """B: one apply() consumes exactly the front entry, uses it for the kick, and appends it to the record; getPastModulation hands out everything once.
     Every path of every call is followed (a map that decides by comparing entries forks)."""
     bld = maps_build(); mod = load_module(bld, MAPS_MODS)
     snap, R, pre = maps_world(bld, n, 1, it)
     ex = Exec(mod, snap, RealDom(), {UPDATE_SM: ext_noop, KICK_APPLY: ext_noop})
-    st = State(); drf = R['drfsin']
+    st = State(); drf = R['drfsin' if model == 'sin' else 'drflin']
     front = ex.run1(State(), 'e_drf_front', [drf]).retval
     ent = []
     for i in range(3):
@@ -146,9 +146,20 @@ def job_queue(res, n, it, L):
             for s1 in run_paths(ex, s0, 'e_apply', [drf]):
                 p, a = ent[k]; consumed = ent[:k + 1]
                 off = get_reals(ex, s1, force, n)
-                def core(x): return -a * ex.dom.z(fld['VRF']) * usin(ax0[x] * ex.dom.z(fld['bl2phase']) + p) + ex.dom.z(fld['V0'])
-                bad = [off[x] * core(0) != off[0] * core(x) for x in range(1, n)]
-                prove(res, 'apply #%d kicks with the queue front (phase%d, ampl%d): displacement field is proportional to -ampl*V*sin(q*bl2phase+phase)+V0 (path %s)' % (k + 1, k, k, [str(c)[:40] for c in s1.pc[-1:]]), s1.pc, z3.Or(*bad), key='apply-uses-front')
+                if model == 'sin':
+                    def core(x): return -a * ex.dom.z(fld['VRF']) * usin(ax0[x] * ex.dom.z(fld['bl2phase']) + p) + ex.dom.z(fld['V0'])
+                else:
+                    # linear model: off(phase, ampl) = ampl * (off(syncphase, 1) + (syncphase - phase) * G), G = off(syncphase - 1, 1) - off(syncphase, 1) (x-independent): the two reference
+                    # fields are concrete runs of the same call at amplitude 1 (that off(syncphase, 1) is the static field tan(angle)*(zero_bin - x) is obligation A / C03)
+                    sync = fld['syncphase']
+                    def probe(ph):
+                        sp = State(); sp.sym = dict(st.sym)
+                        for j in range(3): sp.sym[front + 8 * j] = (4, 'f', ph); sp.sym[front + 8 * j + 4] = (4, 'f', Fraction(1))
+                        return get_reals(ex, run_paths(ex, sp, 'e_apply', [drf])[0], force, n)
+                    ref0 = probe(sync); ref1 = probe(sync - 1); G = ref1[0] - ref0[0]
+                    def core(x): return a * (ref0[x] + (ex.dom.z(sync) - p) * G)
+                bad = [off[x] * core(0) != off[0] * core(x) for x in range(1, n)] if model == 'sin' else [off[x] != core(x) for x in range(n)]
+                prove(res, 'apply #%d (%s RF) kicks with the queue front (phase%d, ampl%d): displacement field is %s (path %s)' % (k + 1, model, k, k, 'proportional to -ampl*V*sin(q*bl2phase+phase)+V0' if model == 'sin' else 'ampl*(field(syncphase,1) + (syncphase-phase)*(field(syncphase-1,1)-field(syncphase,1)))', [str(c)[:40] for c in s1.pc[-1:]]), s1.pc, z3.Or(*bad), key='apply-uses-front')
                 witness(res, 'apply #%d: displacement depends on phase%d and ampl%d' % (k + 1, k, k), s1.pc, z3.And(z3.substitute(off[1], (p, z3.Real('p_alt'))) != off[1], z3.substitute(off[1], (a, z3.Real('a_alt'))) != off[1]))
                 nn = ex.run1(s1, 'e_drf_nnext', [drf]).retval; npast = ex.run1(s1, 'e_drf_npast', [drf]).retval
                 okc = (nn == 3 - (k + 1) and npast == k + 1)
@@ -234,7 +245,7 @@ def main(tier):
     jobs = [(job_ctor_equiv, (m, 8, nb, 4)) for m in ('lin', 'sin') for nb in (1, 2)]
     jobs += [(job_zero_amplitude_queue, (m, 8, 4)) for m in ('lin', 'sin')]
     jobs += [(job_end_to_end, (m, 8, nb, it, p)) for m in ('lin', 'sin') for nb, it in ((1, 4), (2, 3)) for p in PS]
-    jobs += [(job_queue, (8, 4, L)) for L in (1, 2, 3)] + [(job_calcmod, (8, 4))]
+    jobs += [(job_queue, (8, 4, L)) for L in (1, 2, 3)] + [(job_queue, (8, 4, 2, 'lin')), (job_queue, (9, 2, 1, 'lin'))] + [(job_calcmod, (8, 4))]
     jobs += [(job_queue_whole_run, (m, 8, 4, S)) for m in ('lin', 'sin') for S in (700, 40000) if tier != 'quick' or S == 700 or m == 'sin']      # longer than the container's node size; thorough: longer than any plausible block size (2^15)
     if tier != 'quick':
         jobs += [(job_ctor_equiv, (m, n, nb, it)) for m in ('lin', 'sin') for n in (6, 9) for nb in (1, 3) for it in (1, 2, 3)]
